@@ -38,6 +38,7 @@ def make_env(n, comp, gap, budget, init_ids, games):
     feed = GameFeed(n, games)
     g = IncompleteCooperativeGame(n, bl.computer_fn(comp))
     env = ICG_Gym(g, feed, [Coalition(i) for i in init_ids], GAP_FUNCTIONS[gap], done_after_n_actions=budget)
+    env.verif_computer = bl.computer_fn(comp)     # harness-owned note: which computer the oracle's fresh game must use
     return env, feed
 
 
@@ -156,7 +157,7 @@ def oracle_env(env, chosen_ids, hidden, n, init_ids, klass_ok=True, tol=1e-7):
         if not (st[j] == exp or (exp == 0.0 and st[j] == 0.0)):
             fails.append(("observation", j, float(st[j]), exp))
     # reward = - gap of freshly recomputed bounds on an independent object
-    h = IncompleteCooperativeGame(n, g._bounds_computer)
+    h = IncompleteCooperativeGame(n, getattr(env, "verif_computer", None) or g._bounds_computer)
     ks = sorted(want)
     h.set_known_values([float(hidden[i]) for i in ks], [Coalition(i) for i in ks])
     h.compute_bounds()
